@@ -304,6 +304,54 @@ Section A.
     lra.
   Qed.
 
+  (* ---------------------------------------------------------------- the pole branch for EVERY latitude it is taken for *)
+  (* 0 <= cos(lat) < 1e-12 (this contains every double next to +-pi/2: cos = 6.1e-17): astropy substitutes the pole formula
+     for the longitude change only; the latitude stays exact, and the inner product with the starting direction is off by at
+     most 2 cos(lat) *)
+  Lemma ap_offset_by_pole_branch_bound lon lat pa d :
+    0 <= cos lat < 1 / 1000000000000 ->
+    Rabs (vdot (dirv (fst (ap_offset_by N lon lat pa d)) (snd (ap_offset_by N lon lat pa d))) (dirv lon lat) - cos d)
+    <= 2 * cos lat.
+  Proof.
+    intros Hc. unfold ap_offset_by. cbv zeta. cbn [fst snd]. rewrite ap_wrap360_R.
+    assert (Hsmall : ap_small N = 1 / 1000000000000) by (unfold ap_small; num_R; reflexivity).
+    rewrite Hsmall. num_R.
+    destruct (Rltb (cos lat) (1 / 1000000000000)) eqn:E; [|apply Rltb_false in E; lra]. clear E.
+    set (cb := sin lat * cos d + cos lat * sin d * cos pa).
+    set (h := cos d * cos lat - sin d * cos pa * sin lat).
+    set (k := sin d * sin pa).
+    set (A := PI / 2 + sin lat * (PI / 2 - pa)).
+    assert (HK : h * h + k * k + cb * cb = 1).
+    { unfold h, k, cb. generalize (sc1 lat) (sc1 d) (sc1 pa).
+      set (sl := sin lat). set (cl := cos lat). set (sd := sin d). set (cd := cos d). set (sp := sin pa). set (cp := cos pa).
+      intros H1 H2 H3.
+      transitivity (cd * cd * (sl * sl + cl * cl) + sd * sd * cp * cp * (sl * sl + cl * cl) + sd * sd * sp * sp); [ring|].
+      rewrite H1.
+      transitivity (cd * cd + sd * sd * (sp * sp + cp * cp)); [ring|]. rewrite H3. lra. }
+    assert (Bc : -1 <= cb <= 1) by (split; nra).
+    assert (Bh : -1 <= h <= 1) by (split; nra).
+    unfold vdot, dirv, c1, c2, c3. cbn [fst snd].
+    rewrite cos_Rfmod, sin_Rfmod, sin_asin by exact Bc.
+    set (co := cos (asin cb)).
+    assert (Bco : -1 <= co <= 1) by apply COS_bound.
+    assert (BcA : -1 <= cos A <= 1) by apply COS_bound.
+    (* cos(lon + A) cos lon + sin(lon + A) sin lon = cos A *)
+    assert (E : cos (lon + A) * co * (cos lon * cos lat) + sin (lon + A) * co * (sin lon * cos lat) + cb * sin lat - cos d
+                = cos lat * (co * cos A - h)).
+    { rewrite cos_plus, sin_plus. unfold h, cb. generalize (sc1 lon) (sc1 lat).
+      set (sl := sin lat). set (cl := cos lat). set (sL := sin lon). set (cL := cos lon). intros H1 H2.
+      transitivity (cl * co * cos A * (sL * sL + cL * cL) - cos d * (1 - sl * sl) + cl * sin d * cos pa * sl
+                    + co * sin A * cl * (sL * cL - cL * sL)); [ring|].
+      rewrite H1. replace (1 - sl * sl) with (cl * cl) by lra. ring. }
+    rewrite E. rewrite Rabs_mult, (Rabs_pos_eq (cos lat)) by lra.
+    assert (Rabs (co * cos A - h) <= 2).
+    { apply Rabs_le. assert (-1 <= co * cos A <= 1) by (split; nra). lra. }
+    nra.
+  Qed.
+
+  Lemma cos_nonneg_of_range lat : - (PI / 2) <= lat <= PI / 2 -> 0 <= cos lat.
+  Proof. intros H. apply cos_ge_0; lra. Qed.
+
   (* ---------------------------------------------------------------- the function with astropy's formulas *)
   Lemma rses_ap_dirv sra sdec tra tdec rra rdec :
     astropy_exact sdec ->
@@ -364,6 +412,50 @@ Section A.
   Proof.
     unfold rses_ap. rewrite rses_R. cbn [o_offset_by ap_oracle]. unfold ap_offset_by. cbv zeta. cbn [fst snd].
     rewrite ap_wrap360_R. num_R.
+    split; [apply Rfmod_bound; apply twoPI_pos | apply asin_bound].
+  Qed.
+  (* for EVERY source declination in [-pi/2, pi/2] - regular branch, exact pole or astropy's approximate pole branch,
+     hence also for every double the code can receive as a pole: the cosine of the separation is preserved up to
+     2 cos(src_dec) < 2e-12, and exactly outside the approximate branch *)
+  Theorem rses_ap_all_latitudes sra sdec tra tdec rra rdec :
+    - (PI / 2) <= sdec <= PI / 2 ->
+    Rabs (vdot (dirv (fst (rses_ap N sra sdec tra tdec rra rdec)) (snd (rses_ap N sra sdec tra tdec rra rdec))) (dirv sra sdec)
+          - vdot (dirv rra rdec) (dirv tra tdec))
+    <= (if Rlt_dec (cos sdec) (1 / 1000000000000) then 2 * cos sdec else 0).
+  Proof.
+    intros Hr. assert (C0 := cos_nonneg_of_range sdec Hr).
+    destruct (Rlt_dec (cos sdec) (1 / 1000000000000)) as [Hg|Hg].
+    - unfold rses_ap. rewrite rses_R. cbn [o_offset_by o_position_angle o_separation ap_oracle].
+      rewrite ap_separation_R, !dirv_wrap.
+      set (pa := ap_position_angle N _ _ _ _).
+      set (dd := acos (vdot (dirv tra tdec) (dirv rra rdec))).
+      assert (B := ap_offset_by_pole_branch_bound (ap_wrap360 N sra) sdec pa dd (conj C0 Hg)).
+      rewrite (dirv_wrap sra sdec) in B.
+      replace (vdot (dirv rra rdec) (dirv tra tdec)) with (cos dd).
+      + exact B.
+      + unfold dd. rewrite cos_acos by apply dirv_dot_bound. apply vdot_comm.
+    - assert (Hx : astropy_exact sdec) by (left; lra).
+      destruct (rses_ap_frame sra sdec tra tdec rra rdec Hx) as [E _].
+      rewrite E. replace (vdot (dirv rra rdec) (dirv tra tdec) - vdot (dirv rra rdec) (dirv tra tdec)) with 0 by ring.
+      rewrite Rabs_R0. lra.
+  Qed.
+
+  (* the premises of the oracle theorems of P_Coords_Sky.v are satisfiable: astropy's own formulas meet them with
+     okLat = "regular branch or exact pole" (so those theorems are not vacuous) *)
+  Lemma ap_oracle_meets_contracts :
+    (forall l1 b1 l2 b2, o_separation (ap_oracle N) l1 b1 l2 b2 = acos (vdot (dirv l1 b1) (dirv l2 b2)))
+    /\ (forall lon lat pa d, astropy_exact lat -> 0 <= d <= PI ->
+        dirv (fst (o_offset_by (ap_oracle N) lon lat pa d)) (snd (o_offset_by (ap_oracle N) lon lat pa d)) = offset_point lon lat pa d
+        /\ 0 <= fst (o_offset_by (ap_oracle N) lon lat pa d) < 2 * PI
+        /\ - (PI / 2) <= snd (o_offset_by (ap_oracle N) lon lat pa d) <= PI / 2)
+    /\ (forall l1 b1 l2 b2,
+        sin (acos (vdot (dirv l1 b1) (dirv l2 b2))) * cos (o_position_angle (ap_oracle N) l1 b1 l2 b2) = vdot (dirv l2 b2) (north l1 b1)
+        /\ sin (acos (vdot (dirv l1 b1) (dirv l2 b2))) * sin (o_position_angle (ap_oracle N) l1 b1 l2 b2) = vdot (dirv l2 b2) (east l1 b1)).
+  Proof.
+    cbn [o_separation o_offset_by o_position_angle ap_oracle].
+    split; [exact ap_separation_R|]. split; [|exact ap_position_angle_R].
+    intros lon lat pa d Hx Hd. split; [apply ap_offset_by_dirv; assumption|].
+    unfold ap_offset_by. cbv zeta. cbn [fst snd]. rewrite ap_wrap360_R. num_R.
     split; [apply Rfmod_bound; apply twoPI_pos | apply asin_bound].
   Qed.
 End A.
